@@ -157,6 +157,33 @@ def subtrajectory_priority_program(K):
     return prog
 
 
+def subtrajectory_reset_program(K):
+    """reset_max_priority of the prioritized subtrajectory buffer: the tracked maximum is the maximum over EVERY stored
+    priority of the filled region - the most recent (temporarily masked) transitions become valid starts a few steps
+    later and still carry their priority."""
+    from rl_blox.blox import replay_buffer as rb
+
+    def prog(ctx):
+        with _ov(ctx):
+            buf = rb.SubtrajectoryReplayBufferPER(6, horizon=2)
+            for i in range(K):
+                last = i == K - 1
+                term = bool(sym_bool("term_last")) if last else False
+                buf.add_sample(observation=[float(i)], action=float(i), reward=0.0, next_observation=[float(i) + 0.5], terminated=int(term), truncated=0)
+            n = int(buf.current_len)
+            ps = [sym_real(f"p{j}", 0, None, lo_open=True) for j in range(n)]
+            for j in range(n):
+                buf.priority.priority[j] = ps[j]
+            buf.reset_max_priority()
+            mx = buf.priority.max_priority
+            hit = False
+            for j in range(n):
+                ctx.check(mx >= ps[j], "tracked-maximum>=every-stored-priority-after-reset(masked-entries-included)")
+                hit = (mx == ps[j]) | hit
+            ctx.check(hit, "tracked-maximum-is-a-stored-priority-after-reset")
+    return prog
+
+
 def weights_program(n, B):
     from rl_blox.blox import replay_buffer as rb
 
@@ -250,6 +277,8 @@ def main(tier, seed):
         rep.run(f"{cls}:priority-bookkeeping", bookkeeping_program(cls, 2, rep.r.bounds["bookkeeping_ops"], tier == "quick"), max_paths=60000, fn=f"{cls}.add_sample/sample_batch/update_priority/reset_max_priority",
                 site_of=(lambda label, cls=cls: f"{cls}:{label}"))
     rep.run("SubtrajectoryReplayBufferPER:new-priorities", subtrajectory_priority_program(3 if tier == "quick" else 5), fn="SubtrajectoryReplayBufferPER.add_sample/initialize_priority",
+            site_of=lambda label: f"SubtrajectoryReplayBufferPER:{label}")
+    rep.run("SubtrajectoryReplayBufferPER:reset_max_priority", subtrajectory_reset_program(3 if tier == "quick" else 4), fn="SubtrajectoryReplayBufferPER.reset_max_priority",
             site_of=lambda label: f"SubtrajectoryReplayBufferPER:{label}")
     for n in ([2] if tier == "quick" else [2, 3]):
         rep.run(f"compute_importance_ratio[n={n}]", weights_program(n, 2), fn="PrioritizedReplayBuffer.compute_importance_ratio")
